@@ -35,7 +35,7 @@ def gen(rnd, n_projects, schedules):
                         "target": {"policy": rnd.choice(["LargeOK", "LargeRefused"]), "identity": ident, "pages": pages, "caps": caps},
                         "project": proj, "mem": mem,
                         "driver": {"kind": "logix", "path": "10.5.5.%d" % (i % 250 + 1), "route": [] if micro else [S.port_seg("bp", 0)],
-                                   "init_program_tags": allp}, "calls": calls, "budget": 2000000})
+                                   "init_program_tags": allp}, "calls": calls, "budget": 400000, "call_seconds": 180})
     # a page of the symbol list refused by the controller (busy): the upload fails or is repeated, never returns a partial list
     for j in range(max(4, n_projects // 3)):
         sc = copy.deepcopy(scs[(j * 3 + 1) % len(scs)])
